@@ -514,3 +514,70 @@ Proof.
   - cbn. tauto.
   - intros e [<-|[<-|[<-|[]]]]; cbn; lia.
 Qed.
+
+(* ---------- further clauses for Props/C13.v, C14.v: uniform / weight-proportional draws of random, windows of mod-hash ---------- *)
+Definition image_of (c : list nat) (l : list ep) : list res :=
+  match c with [] => map RSel l | _ => map (fun j => RSel (nth j l dummy)) c end.
+
+Lemma slots_window_perm c l (p : N) : l <> [] ->
+  let L := match c with [] => length l | _ => length c end in
+  Permutation.Permutation (map (fun i => RSel (slot_of c l (p + N.of_nat i))) (seq 1 L)) (image_of c l).
+Proof.
+  intros Hne. cbn zeta. unfold slot_of, image_of. destruct c as [|c0 c'].
+  - assert (E : map RSel l = map (fun j => RSel (nth j l dummy)) (seq 0 (length l))) by (rewrite <- (map_map (fun j => nth j l dummy) RSel), map_nth_seq; reflexivity).
+    rewrite E. rewrite <- (map_map (fun i => N.to_nat (N.modulo (p + N.of_nat i) (N.of_nat (length l)))) (fun j => RSel (nth j l dummy))).
+    apply Permutation.Permutation_map. apply window_perm. destruct l; [congruence|cbn; lia].
+  - cbv iota. set (cc := c0 :: c'). assert (Hc : cc <> []) by (unfold cc; discriminate).
+    assert (E : map (fun j => RSel (nth j l dummy)) cc = map (fun t => RSel (nth (nth t cc 0%nat) l dummy)) (seq 0 (length cc))) by (rewrite <- (map_map (fun t => nth t cc 0%nat) (fun j => RSel (nth j l dummy))), map_nth_seq; reflexivity).
+    rewrite E. rewrite <- (map_map (fun i => N.to_nat (N.modulo (p + N.of_nat i) (N.of_nat (length cc)))) (fun t => RSel (nth (nth t cc 0%nat) l dummy))).
+    apply Permutation.Permutation_map. apply window_perm. destruct cc; [congruence|cbn; lia].
+Qed.
+
+Section props2.
+  Variable points : list N -> nat -> list N.
+
+  (* random: the draw r (any value; rand.Intn reduces it) selects slot r mod L of the list resp. of the weight cycle ... *)
+  Theorem random_slot weighted h code rnd : set_of_history h <> [] ->
+    let l := set_of_history h in let c := cyc Random weighted l in
+    snd (select Random (state_after points Random weighted h) code rnd) =
+    RSel (slot_of c l (N.modulo rnd (N.of_nat (match c with [] => length l | _ => length c end)))).
+  Proof.
+    cbn zeta. intros Hne. rewrite <- (state_after_cache points Random weighted h). rewrite <- (state_after_eps points Random weighted h) in *.
+    set (s := state_after points Random weighted h) in *. unfold select. destruct (eps s) as [|e0 t] eqn:Ee; [congruence|]. cbn [snd].
+    rewrite <- Ee. rewrite (pick_slot s _ (state_after_wf points Random weighted h)) by congruence. unfold intn, cyc_len. destruct (cache s); reflexivity.
+  Qed.
+
+  (* ... so the L equally likely draws hit every endpoint exactly once (no cycle) resp. endpoint i exactly as often as the
+     cycle contains it (C13_swrr_counts): selection probability proportional to the prescribed count *)
+  Theorem random_draws weighted h code : set_of_history h <> [] ->
+    let l := set_of_history h in let c := cyc Random weighted l in
+    map (fun r => snd (select Random (state_after points Random weighted h) code (N.of_nat r)))
+        (seq 0 (match c with [] => length l | _ => length c end)) = image_of c l.
+  Proof.
+    cbn zeta. intros Hne. set (l := set_of_history h) in *. set (c := cyc Random weighted l).
+    set (L := match c with [] => length l | _ => length c end).
+    assert (HL : (0 < L)%nat) by (unfold L; destruct c; [destruct l; [congruence|cbn; lia]|cbn; lia]).
+    transitivity (map (fun r => RSel (slot_of c l (N.of_nat r))) (seq 0 L)).
+    - apply map_ext_in. intros r Hr. apply in_seq in Hr. rewrite (random_slot weighted h code (N.of_nat r) Hne). fold l c L.
+      rewrite N.mod_small by lia. reflexivity.
+    - unfold image_of, slot_of, L. destruct c as [|c0 c'] eqn:Ec.
+      + assert (E : map RSel l = map (fun j => RSel (nth j l dummy)) (seq 0 (length l))) by (rewrite <- (map_map (fun j => nth j l dummy) RSel), map_nth_seq; reflexivity).
+        rewrite E. apply map_ext_in. intros r Hr. apply in_seq in Hr. rewrite N.mod_small by lia. now rewrite Nat2N.id.
+      + set (cc := c0 :: c') in *.
+        assert (E : map (fun j => RSel (nth j l dummy)) cc = map (fun t => RSel (nth (nth t cc 0%nat) l dummy)) (seq 0 (length cc))) by (rewrite <- (map_map (fun t => nth t cc 0%nat) (fun j => RSel (nth j l dummy))), map_nth_seq; reflexivity).
+        rewrite E. apply map_ext_in. intros r Hr. apply in_seq in Hr. rewrite N.mod_small by lia. now rewrite Nat2N.id.
+  Qed.
+
+  (* mod-hash: any L consecutive hash codes (not wrapping 2^32) are spread over the list resp. the cycle as a rearrangement of it *)
+  Theorem modhash_window weighted h (p : N) : set_of_history h <> [] ->
+    let l := set_of_history h in let c := cyc ModHash weighted l in let L := match c with [] => length l | _ => length c end in
+    p + N.of_nat L < two32 ->
+    Permutation.Permutation (map (fun i => snd (select ModHash (state_after points ModHash weighted h) (p + N.of_nat i) 0)) (seq 1 L)) (image_of c l).
+  Proof.
+    cbn zeta. intros Hne Hlt. set (l := set_of_history h) in *. set (c := cyc ModHash weighted l) in *.
+    set (L := match c with [] => length l | _ => length c end) in *.
+    rewrite (map_ext_in _ (fun i => RSel (slot_of c l (p + N.of_nat i)))).
+    - apply (slots_window_perm c l p Hne).
+    - intros i Hi. apply in_seq in Hi. rewrite (modhash_slot points weighted h _ 0 Hne). fold l c. rewrite N.mod_small by lia. reflexivity.
+  Qed.
+End props2.
